@@ -38,6 +38,39 @@ def bnot_axioms():
     return [z3.ForAll([x], bnot(x) == -x - 1, patterns=[bnot(x)])]
 
 
+smul = z3.Function("smul", I, I, I)       # q * w (q >= 0) by repeated addition: offsets of equally sized records
+
+
+def smul_axioms():
+    """smul(q, w) = q*w for q >= 0, w >= 0, stated without multiplication: unfolding, and the two consequences of
+    induction the proofs need (monotone in q with step w; non-negative).  validate_native checks them against q*w."""
+    q, r, w = z3.Ints("q!sm r!sm w!sm")
+    return [z3.ForAll([w], smul(0, w) == 0, patterns=[smul(0, w)]),
+            z3.ForAll([q, w], z3.Implies(q >= 1, smul(q, w) == smul(q - 1, w) + w), patterns=[smul(q, w)]),
+            z3.ForAll([q, w], z3.Implies(q >= 0, smul(q + 1, w) == smul(q, w) + w), patterns=[smul(q + 1, w)]),
+            z3.ForAll([q, r, w], z3.Implies(z3.And(0 <= q, q < r, w >= 0), smul(q, w) + w <= smul(r, w)),
+                      patterns=[z3.MultiPattern(smul(q, w), smul(r, w))]),
+            z3.ForAll([q, w], z3.Implies(z3.And(q >= 0, w >= 0), smul(q, w) >= 0), patterns=[smul(q, w)])]
+
+
+def smul_validate():
+    cases = 0
+    bad = []
+    f = lambda q, w: q * w if q > 0 else 0        # noqa: E731   (the Python definition in contracts/spec.py)
+    for w in range(0, 12):
+        for q in range(0, 12):
+            cases += 1
+            if q >= 1 and f(q, w) != f(q - 1, w) + w:
+                bad.append(("unfold", q, w))
+            if f(q + 1, w) != f(q, w) + w or f(q, w) < 0:
+                bad.append(("step", q, w))
+            for r in range(q + 1, 13):
+                cases += 1
+                if not f(q, w) + w <= f(r, w):
+                    bad.append(("mono", q, r, w))
+    return cases, bad
+
+
 def pmod_axioms():
     x, m = z3.Ints("x!pm m!pm")
     return [z3.ForAll([x, m], z3.Implies(m > 0, z3.And(0 <= pmod(x, m), pmod(x, m) < m)), patterns=[pmod(x, m)])]
@@ -92,7 +125,8 @@ def validate_native():
             if not eval(code, g):
                 failures.append((name, dict(zip(names, vals))))
                 break
-    return cases, failures
+    c2, b2 = smul_validate()
+    return cases + c2, failures + b2
 
 
 def pow2_facts(maxn=64):
